@@ -295,6 +295,322 @@ def tie_pairs(ctx: Ctx, n: int):
         os.rmdir(d)
 
 
+# ------------------------------------------------------------------ (b')
+# Names sections whose <name> is related, as a string, to OTHER names it must not touch: a plain
+# <name> denotes exactly that canonical residue name (forcefield.py anchors it with an implicit
+# '$'; the match starts at the first character), although it may be a proper prefix / suffix /
+# interior substring of other canonical names (DA < DA5, ALA < NALA, RA < NEUTRAL-CALA) or of
+# residue names of the user's own parameter file (ADE < ADE5).  The expected map is computed by an
+# oracle that reads only the two files and the canonical names.
+
+PLAIN_NAME = re.compile(r"[A-Za-z0-9'*\-]+\Z")
+REL_TEMPLATES = ["{S}$", "{S}.?$", "{S}[35]?$", "[NC]?{S}$", "{S}([35])$", "([NC]){S}$", "[NC]?{S}"]
+NATIVE_ATOMS = ["P", "O1P", "O2P", "O5'", "C5'", "H5'1", "H5'2", "N", "CA", "HN", "OH2", "HT1", "C", "O"]
+CANON_ATOMS = ["H5'", "H5''", "OP1", "OP2", "H", "OW", "H1", "O", "CA", "N"]
+_relations = None
+
+
+def name_relations(names):
+    """{relation: {short: [long, ...]}}: short is a proper prefix / proper suffix / interior substring of long"""
+    rel = {"prefix": {}, "suffix": {}, "substring": {}}
+    for s in names:
+        for l in names:
+            if s == l or s not in l:
+                continue
+            if l.startswith(s):
+                rel["prefix"].setdefault(s, []).append(l)
+            if l.endswith(s):
+                rel["suffix"].setdefault(s, []).append(l)
+            if s in l[1:-1]:
+                rel["substring"].setdefault(s, []).append(l)
+    return rel
+
+
+def parse_dat_text(text: str):
+    """rows of a parameter file in the documented format (docs/source/formats/dat.rst), in file order"""
+    rows = []
+    for line in text.splitlines():
+        if line.startswith("#"):
+            continue
+        f = line.split()
+        if not f:
+            continue
+        rows.append((f[0], f[1], float(f[2]), float(f[3]), f[4] if len(f) > 4 else ""))
+    return rows
+
+
+def parse_names_text(text: str):
+    """sections of a .names file (docs/source/formats/xml-names.rst): (name, useresname or None, [(name, useatomname)])"""
+    import xml.etree.ElementTree as ET
+
+    sections = []
+    for res in ET.fromstring(text):
+        name = use = None
+        atoms = {}
+        for ch in res:
+            if ch.tag == "name":
+                name = ch.text
+            elif ch.tag == "useresname":
+                use = ch.text
+            elif ch.tag == "atom":
+                atoms[ch.findtext("name")] = ch.findtext("useatomname")
+        sections.append((name, use, list(atoms.items())))
+    return sections
+
+
+def names_matches(pat: str, names):
+    """the names a section's <name> denotes, in the order of `names`: a plain name denotes itself only;
+    a regular expression is matched from the first character with the implicit end anchor"""
+    if PLAIN_NAME.match(pat):
+        return [(n, None) for n in names if n == pat]
+    rx = re.compile(pat + "$")
+    out = []
+    for n in names:
+        m = rx.match(n)
+        if m:
+            out.append((n, m))
+    return out
+
+
+def expected_map(dat: str, names: str, canon):
+    """independent oracle: the documented reading of a parameter file + names file.
+    -> {(residue key, atom key): (charge, radius, native residue, native atom, group, residue object's name)}"""
+    res = {}  # key -> [name of the residue object, {atom key: record}]
+    for r, a, q, rad, g in parse_dat_text(dat):
+        res.setdefault(r, [r, {}])[1][a] = (q, rad, r, a, g)  # last row wins
+    for pat, use, atoms in parse_names_text(names):
+        if use is not None:
+            for target, m in names_matches(pat, list(canon)):
+                src = use.replace("$group", m.group(1)) if "$group" in use else use
+                if "$group" in use and src not in res:
+                    continue
+                if src not in res:
+                    raise KeyError(src)
+                if target not in res:
+                    res[target] = [src, {}]
+                for an, rec in list(res[src][1].items()):  # cumulative overlay
+                    res[target][1][an] = rec
+        if atoms:
+            for key, _m in names_matches(pat, list(res)):
+                for new, old in atoms:
+                    if old in res[key][1]:
+                        res[key][1][new] = res[key][1][old]
+    return {(k, an): rec + (nm,) for k, (nm, at) in res.items() for an, rec in at.items()}
+
+
+def gen_related_pair(rng: random.Random, canon):
+    """parameter file + names file whose section names are string-related to names they must not touch"""
+    global _relations
+    if _relations is None:
+        _relations = name_relations(list(canon))
+    relname = rng.choice(["prefix", "prefix", "prefix", "suffix", "suffix", "substring"])
+    rel = _relations[relname]
+    S = rng.choice(sorted(rel))
+    longs = rng.sample(rel[S], min(len(rel[S]), rng.randint(1, 3)))
+    extras = rng.sample(list(canon), rng.randint(0, 2))
+    cluster = [S] + [x for x in dict.fromkeys(longs + extras) if x != S]
+    feats = {"relation:" + relname}
+    # the user's own residue names: either the same string relation among them (ADE / ADE5 / NADE), the
+    # canonical names themselves, or unrelated names
+    style = rng.choice(["mirrored", "mirrored", "canonical", "unrelated"])
+    feats.add("native-names:" + style)
+    base = rng.choice(["ADE", "URA", "XX", "TP3", "ALAD", "R"])
+    native = {}
+    for i, x in enumerate(cluster):
+        if style == "mirrored" and S in x:
+            native[x] = x.replace(S, base, 1) if relname != "suffix" else x[: len(x) - len(S)] + base
+        elif style == "canonical" and rng.random() < 0.7:
+            native[x] = x
+        else:
+            native[x] = f"{base}{'QWZYK'[i % 5]}{i}"
+    pool = rng.sample(NATIVE_ATOMS, 5)
+    lines = ["# generated parameter file\n"] if rng.random() < 0.5 else []
+    k = 0
+    for x in cluster:
+        for a in rng.sample(pool, rng.randint(3, 5)):
+            k += 1
+            q = f"{rng.choice([-1, 1]) * (k * 0.0137 % 1):.4f}"
+            rad = f"{0.5 + (k * 0.0713 % 2):.4f}"
+            grp = [rng.choice(["N3", "CT", "HO"])] if rng.random() < 0.3 else []
+            lines.append(rng.choice([" ", "\t"]).join([native[x], a, q, rad] + grp) + "\n")
+    if rng.random() < 0.2:
+        rng.shuffle(lines)
+        feats.add("rows-not-grouped-by-residue")
+
+    def aliases():
+        out = {}
+        for _ in range(rng.choice([0, 1, 2])):
+            out[rng.choice(CANON_ATOMS)] = rng.choice(pool)
+        # a canonical atom name is mapped onto the force field's name, not onto another alias
+        return [(a, b) for a, b in out.items() if a not in pool or a == b]
+
+    per_name = {}
+    for x in cluster:
+        secs = []
+        r = rng.random()
+        if native[x] == x and r < 0.5:
+            al = aliases() or [(CANON_ATOMS[0], pool[0])]
+            secs.append((x, None, al))  # the parameter file already uses the canonical residue name
+            feats.add("atom-aliases-only")
+        elif r < 0.7:
+            secs.append((x, native[x], aliases()))
+        else:
+            secs.append((x, native[x], []))
+            al = aliases()
+            if al:
+                secs.append((x, None, al))  # aliases in a section of their own, after the residue hook
+                feats.add("atom-aliases-only")
+        if rng.random() < 0.12:
+            other = native[rng.choice(cluster)]
+            secs.append((x, other, []))  # cumulative: a second force-field residue overlaid
+            feats.add("cumulative")
+        per_name[x] = secs
+    order = rng.choice(["short-last", "short-last", "short-first", "shuffled"])
+    feats.add("order:" + order)
+    rest = [x for x in cluster if x != S]
+    if order == "shuffled":
+        seq = cluster[:]
+        rng.shuffle(seq)
+    else:
+        rng.shuffle(rest)
+        seq = rest + [S] if order == "short-last" else [S] + rest
+    sections = [s for x in seq for s in per_name[x]]
+    if rng.random() < 0.3:
+        tpl = rng.choice(REL_TEMPLATES)
+        pat = tpl.format(S=S)
+        groups = re.compile(pat).groups
+        use = None
+        if groups and style == "mirrored":
+            use = (("$group" + base) if tpl.startswith("(") else (base + "$group"))
+            feats.add("$group")
+        al = aliases()
+        if use is not None or al:
+            sections.insert(rng.randrange(len(sections) + 1), (pat, use, al))
+            feats.add("regex:" + tpl)
+    if any(a for _, _, a in sections):
+        feats.add("atom-aliases")
+    xml = ["<?xml version='1.0'?>", "<userff>"]
+    for pat, use, atoms in sections:
+        xml.append("  <residue>")
+        xml.append(f"    <name>{pat.replace('&', '&amp;').replace('<', '&lt;')}</name>")
+        if use is not None:
+            xml.append(f"    <useresname>{use}</useresname>")
+        for a, b in atoms:
+            xml.append(f"    <atom><name>{a}</name><useatomname>{b}</useatomname></atom>")
+        xml.append("  </residue>")
+    xml.append("</userff>")
+    return "".join(lines), "\n".join(xml) + "\n", sections, feats
+
+
+def load_user_ff(dat: str, names: str):
+    """the real Forcefield(userff, usernames) on the two texts -> flattened map, or the exception's class name"""
+    from pdb2pqr import forcefield
+
+    d = tempfile.mkdtemp(prefix="c01_")
+    dp, np_ = os.path.join(d, "u.DAT"), os.path.join(d, "u.names")
+    try:
+        open(dp, "w", newline="").write(dat)
+        open(np_, "w").write(names)
+        try:
+            return real_map(forcefield.Forcefield("user", definition(), dp, np_))
+        except Exception as e:  # noqa: BLE001
+            return type(e).__name__
+    finally:
+        for fn in os.listdir(d):
+            os.unlink(os.path.join(d, fn))
+        os.rmdir(d)
+
+
+def user_ff_problems(dat: str, names: str, canon):
+    """compare the loaded force field with the oracle's reading of the two files -> [(what, message, key)]"""
+    try:
+        want = expected_map(dat, names, canon)
+    except KeyError:
+        want = "KeyError"
+    got = load_user_ff(dat, names)
+    if isinstance(want, str) or isinstance(got, str):
+        if want != got:
+            return got, [("load-outcome", f"loading the parameter/names pair: expected {want if isinstance(want, str) else 'a force field'}, got {got if isinstance(got, str) else 'a force field'}", ["-", "-"])]
+        return got, []
+    out = []
+    for k in want:
+        if k not in got:
+            out.append(("entry-lost", f"({k[0]}, {k[1]}): the files give {want[k]}, the loaded force field has no entry", list(k)))
+        elif got[k] != want[k]:
+            what = "wrong-value" if got[k][:2] != want[k][:2] else "wrong-native-names"
+            out.append((what, f"({k[0]}, {k[1]}): the parameter file through the names file gives {want[k]}, the loaded force field answers {got[k]}", list(k)))
+    for k in got:
+        if k not in want:
+            out.append(("entry-borrowed", f"({k[0]}, {k[1]}): no row/section of the files gives this entry, the loaded force field answers {got[k]}", list(k)))
+    return got, out
+
+
+def model_request(dat: str, sections, canon):
+    import io
+
+    try:
+        enc = ";".join(" ".join(genff.re_tokens(genff.re_ast(p + "$"))) + "|" + ("~" if u is None else hexs(u)) + "|" + ",".join(f"{hexs(a)}={hexs(b)}" for a, b in at) for p, u, at in sections)
+    except genff.Unsupported:
+        return None
+    dlines = io.StringIO(dat, newline=None).readlines()
+    return f"ff.build\t{';'.join(hexs(l) for l in dlines)}\t{enc}\t{','.join(hexs(c) for c in canon)}"
+
+
+def tie_related(ctx: Ctx, n: int):
+    rng = random.Random(f"{ctx.pid}:related-names:{ctx.seed}")  # a stream of its own: the other streams keep their inputs
+    canon = list(definition().map.keys())
+    cases, reqs = [], []
+    seen = set()
+    for _ in range(n):
+        dat, names, sections, feats = gen_related_pair(rng, canon)
+        got, problems = user_ff_problems(dat, names, canon)
+        ctx.evaluations += 1
+        for f in feats:
+            head, _, tail = f.partition(":")
+            if tail and head in ("relation", "order", "native-names"):
+                ctx.count("related-names-" + head, tail)
+        ctx.count("related-names-outcome", got if isinstance(got, str) else "ok")
+        ctx.distinct.add(("related", tuple(sorted(feats)), got if isinstance(got, str) else "ok"))
+        relname = next(f for f in feats if f.startswith("relation:"))[9:]
+        for what, msg, key in problems:
+            sig = {"kind": "user-names-file", "what": what, "name-relation": relname}
+            k = tuple(sorted(sig.items()))
+            if k in seen:
+                continue
+            seen.add(k)
+            ctx.violate(sig, "user parameter/names pair, entry " + msg, {"dat": dat, "names": names, "key": key})
+        cases.append((dat, names, got))
+        reqs.append(model_request(dat, sections, canon))
+    if not ctx.driver.available():
+        return
+    ans = ctx.driver.ask([r for r in reqs if r is not None])
+    j = 0
+    for (dat, names, got), rq in zip(cases, reqs):
+        if rq is None:
+            ctx.count("related-names-model", "pattern-outside-model")
+            continue
+        a = ans[j]
+        j += 1
+        ctx.count("related-names-model", "compared")
+        if a in ("ValueError", "IndexError", "KeyError") or isinstance(got, str):
+            m_out = a if a in ("ValueError", "IndexError", "KeyError") else "ok"
+            i_out = got if isinstance(got, str) else "ok"
+            if m_out != i_out:
+                ctx.disagree("Forcefield(userff, usernames) error class (related names)", {"dat": dat, "names": names}, m_out, i_out)
+            continue
+        mm = parse_map(a)
+        dd = first_map_diff(mm, got)
+        if dd is not None:
+            ctx.disagree("Forcefield(userff, usernames).map (related names)", {"dat": dat, "names": names}, str(dd["model"]), f"{dd['key']}: {dd['impl']}")
+        try:
+            want = expected_map(dat, names, canon)
+        except KeyError:
+            continue
+        if dict(mm) != want:
+            bad = next((k for k in want if mm.get(k) != want[k]), None) or next(k for k in mm if k not in want)
+            ctx.disagree("model vs independent oracle (related names)", {"dat": dat, "names": names}, str(mm.get(bad)), f"{bad}: {want.get(bad)}")
+
+
 # ------------------------------------------------------------------ (c)
 
 STATE_NAMES = {"ASP": ["ASH"], "GLU": ["GLH"], "HIS": ["HID", "HIE", "HIP", "HSD", "HSE", "HSP"], "CYS": ["CYM", "CYX"], "LYS": ["LYN"], "TYR": ["TYM"], "ARG": ["AR0"]}
@@ -368,6 +684,45 @@ def sweep_cases(rng):
         text, opts, f = c13.gen_case(rng)
         ff = next(o for o in opts if o.startswith("--ff="))[5:]
         yield text, ff, opts, {"disulfide:" + ",".join(sorted(x for x in f if x in ("bonded", "third", "edge-in", "edge-out", "far", "free")))}
+    yield from nucleic_cases(rng)
+
+
+NUC_FFS = {"D": ["AMBER", "CHARMM", "TYL06"], "R": ["AMBER", "CHARMM", "PARSE", "TYL06"]}
+
+
+def nucleic_requests(rng):
+    """synthesised DNA / RNA strands (no nucleic-acid structure exists offline): for every force field that defines the
+    nucleotides and each sugar kind, two runs of two strands so that every base occurs at the 5' end, in the middle and at
+    the 3' end; RNA residues under their deposited one-letter names in every other run; one run with waters, one with a peptide chain.
+    Yields (text, ff, options, features, strands) with strands = [(chain id, [look-up base names])] - the request."""
+    k = 0
+    for kind, ffs in NUC_FFS.items():
+        al = G.DNA if kind == "D" else G.RNA
+        for ff in ffs:
+            for i in (0, 1):
+                a = [al[i % 4], al[(i + 1) % 4], al[(i + 2) % 4]]
+                b = [al[(i + 2) % 4], al[(i + 3) % 4]] + ([al[(i + 1) % 4]] if k % 3 == 0 else []) + [al[i % 4]]
+                naming = "one-letter" if (kind == "R" and i == 1) else "full"
+                ra, _ = G.strand(rng, kind, bases=a, chain="A", naming=naming)
+                rb, _ = G.strand(rng, kind, bases=b, chain="B", origin=(0.0, 40.0, 0.0), naming=naming)
+                feats = {"nucleic:" + kind, "nucleic-naming:" + naming}
+                waters, chains = [], [ra, rb]
+                if k % 4 == 1:
+                    waters = [G.water(rng, "A", 900 + j, (10.0, -25.0, 0.0), 6.0) for j in range(3)]
+                    feats.add("nucleic+waters")
+                if k % 4 == 2:
+                    _f, pep = G.window(rng, 4)
+                    G.set_chain(pep, "P", 1)
+                    G.rigid(pep, [[1, 0, 0], [0, 1, 0], [0, 0, 1]], (0.0, 0.0, 90.0))
+                    chains.append(pep)
+                    feats.add("nucleic+peptide")
+                k += 1
+                yield G.to_pdb(chains, waters), ff, [f"--ff={ff}", "--whitespace", "--keep-chain"], feats, [("A", a), ("B", b)]
+
+
+def nucleic_cases(rng):
+    for text, ff, opts, feats, _strands in nucleic_requests(rng):
+        yield text, ff, opts, feats
 
 
 def enc_info(i):
@@ -432,12 +787,13 @@ def check_run(ctx: Ctx, text, ff, opts, run):
 def run(ctx: Ctx):
     rng = ctx.rng
     ctx.extra["rule"] = (
-        "(a) six built-in maps exhaustively + every names pattern x every canonical residue name; (b) generated parameter/.names pairs; "
+        "(a) six built-in maps exhaustively + every names pattern x every canonical residue name; (b) generated parameter/.names pairs; (b') parameter/.names pairs whose section names are proper prefixes / suffixes / substrings of other canonical or parameter-file residue names, in both section orders, against an oracle reading only the two files; "
         "(c) every pre-named protonation state at the first and last chain position, disulfide pairs (terminal cysteines included), then peptide windows (2-12 residues, every residue type forced in turn, pre-named states, two chains, waters) x force field x options through the real pipeline; "
         "a case is (kind, feature set / ff / residue lookup names); distinct counts distinct tuples"
     )
     tie_builtin(ctx)
     tie_pairs(ctx, ctx.scale(150, 4000))
+    tie_related(ctx, ctx.scale(150, 3000))
     n = ctx.scale(40, 1500)
     seen = set()
     cases = list(sweep_cases(rng)) + [gen_case(rng) for _ in range(n)]
@@ -464,6 +820,11 @@ def run(ctx: Ctx):
 
 def replay(ctx: Ctx, data: dict) -> bool:
     rp = data.get("replay", data)
+    if "dat" in rp and "names" in rp and "pdb" not in rp:
+        _got, pr = user_ff_problems(rp["dat"], rp["names"], list(definition().map.keys()))
+        for p in pr:
+            print(p)
+        return bool(pr)
     r = G.run_pipeline(rp["pdb"], rp["options"])
     print("status:", r.status, r.exc)
     if r.status != "ok":
